@@ -1,5 +1,5 @@
 (* C19 - String and Dump are total on every packet value. *)
-From MQ Require Import Model.Render Proofs.BytesP Proofs.DecP Proofs.TotalP Proofs.DispatchP.
+From MQ Require Import Model.Render Proofs.BytesP Proofs.DecP Proofs.TotalP Proofs.DispatchP Model.AccIR Model.DumpIR Proofs.DumpP gen.GenDump gen.SyncDump.
 From Coq Require Import Arith List. Import ListNotations. Open Scope N_scope.
 
 (* In the model Dump is a total function (structural recursion over the
@@ -47,3 +47,11 @@ Proof.
   - destruct (reason_toks (b2n b)); [discriminate|discriminate].
 Qed.
 Print Assumptions C19_bytes.
+
+(* Dump of every type is the regenerated item list of its dump method
+   interpreted over the accessor table (Model/DumpIR.v, gen/SyncDump.v): a
+   total function by construction - no item dereferences the will without the
+   `p.will != nil` test, none indexes a list. *)
+Theorem C19_dump_is_the_source : forall k p, run_dump k p = dump_toks k p.
+Proof. exact run_dump_is_dump_toks. Qed.
+Print Assumptions C19_dump_is_the_source.
